@@ -6,6 +6,7 @@ import (
 	"sort"
 	"strings"
 
+	"Havoc/pkg/agent"
 	"Havoc/pkg/packager"
 
 	"vcheck/refdemon"
@@ -119,6 +120,7 @@ func RunGate(behs [][]Step, tr *Trace, env Env, sum *Summary) {
 				s.real[r] = v
 				s.abs[v] = r
 			}
+			s.real[0], s.abs[0] = 0, 0 // the id of the teamserver's own relay jobs
 			tr.Emit(map[string]any{"ev": "Reset"})
 			for si, st := range beh {
 				s.n++
@@ -135,6 +137,9 @@ func RunGate(behs [][]Step, tr *Trace, env Env, sum *Summary) {
 					pk.Body.SubEvent = packager.Type.Session.Input
 					pk.Body.Info = map[string]any{"DemonID": ag.NameID, "CommandID": "11", "TaskID": fmt.Sprintf("%08X", s.real[r]), "CommandLine": "sleep 1 1", "Arguments": "1;1"}
 					w.TS.DispatchEvent(pk)
+				case "RelayJob":
+					// as the SOCKS / port-forward relay goroutines do it
+					ag.AddJobToQueue(agent.Job{Command: agent.COMMAND_SOCKET, Data: []any{agent.SOCKET_COMMAND_WRITE, 0x77, []byte("relayed")}})
 				case "HandOut":
 					rr := w.Request(refdemon.CheckIn(id, w.Keys[id]))
 					if rr.Panic != "" || rr.Timeout {
